@@ -208,6 +208,64 @@ def h_canonical_via(d: Decl, props, entry):
                    clause='forall v obtainable through %s: try_new(v.into_inner()) == Ok(v)' % entry)
 
 
+def h_valid_via(d: Decl, props, entry):
+    """C05(a): a value obtained through a safe entry point satisfies every declared validator."""
+    S = concrete_self(d)
+    I = concrete_inner(d)
+    attrs = ''
+    pre = sym_setup(d)
+    if entry == 'TryFrom':
+        get = anyval(d) + '        let got = <%s as ::core::convert::TryFrom<%s>>::try_from(raw).ok();\n' % (S, I)
+    elif entry == 'FromStr':
+        t = d.inner
+        attrs = '#[kani::stub(<%s as ::core::str::FromStr>::from_str, stub_parse_%s)]\n    ' % (t, t)
+        get = (anyval(d) + '        unsafe { P_OK = true; P_VAL_%s = raw; P_CALLS = 0; }\n' % t.upper() +
+               '        let got = <%s as ::core::str::FromStr>::from_str("?").ok();\n' % S)
+    elif entry == 'Deserialize':
+        get = (anyval(d) + '        unsafe { sfmt::EXPECT_NAME = "%s"; }\n' % d.name +
+               '        let mode: u8 = kani::any();\n'
+               '        let got = <%s as serde::Deserialize>::deserialize(sfmt::Fmt { v: raw, ok: true, mode }).ok();\n' % S)
+    elif entry == 'Arbitrary':
+        sz = (INT_BITS_OF[d.inner] // 8) if d.family == 'int' else (4 if d.inner == 'f32' else 8)
+        n = sz + 1 if d.family == 'int' else 2 * sz + 1
+        attrs = '#[kani::unwind(%d)]\n    ' % (n + 3)
+        if d.family == 'int':
+            pre += int_valid_range_code(d)
+        else:
+            pre += '        kani::assume(sym_lo_%s().is_finite() && sym_hi_%s().is_finite() && { let w: %s = kani::any(); !w.is_nan() && ref_%s::valid(&w) });\n' % (d.inner, d.inner, d.inner, d.id)
+        get = ('        let bytes: [u8; %d] = kani::any();\n        let len: usize = kani::any();\n        kani::assume(len <= %d);\n' % (n, n) +
+               '        let mut u = arbitrary::Unstructured::new(&bytes[..len]);\n'
+               '        let got = <%s as arbitrary::Arbitrary>::arbitrary(&mut u).ok();\n' % S)
+    else:
+        raise ValueError(entry)
+    body = (pre + get +
+            '        if let Some(v) = got { let i = v.into_inner(); assert!(ref_%s::valid(&i), "a value obtained through %s satisfies every declared validator"); }\n' % (d.id, entry))
+    return Harness(d, 'guards run: ' + entry, props, body, attrs=attrs,
+                   clause='forall inputs: %s yields only values that satisfy every declared validator (the guards cannot be bypassed)' % entry)
+
+
+def guard_decls(tier='quick'):
+    out = []
+    types = ['i32', 'u8', 'i64', 'f32', 'f64'] if tier == 'quick' else [t for t in INT_TYPES + FLOAT_TYPES if t not in ('usize', 'isize', 'i128', 'u128')]
+    der = ['Debug', 'TryFrom', 'FromStr', 'Serialize', 'Deserialize', 'Arbitrary']
+    for t in types:
+        fl = t in FLOAT_TYPES
+        fam = 'float' if fl else 'int'
+        bl, n1 = aux.sym_bound('lo', t)
+        bu, n2 = aux.sym_bound('hi', t)
+        vals = [Validator('greater_or_equal', bl), Validator('less', bu)]
+        if fl:
+            vals = [Validator('finite')] + vals
+        out.append(mk('grd_%s_val' % t, fam, t, validators=vals, aux=[n1, n2], derives=der))
+        s, n5 = aux.custom('san', t)
+        out.append(mk('grd_%s_san_val' % t, fam, t, sanitizers=[Sanitizer('with', s)], validators=vals, aux=[n1, n2, n5],
+                      derives=[x for x in der if x != 'Arbitrary']))
+    for d in out:
+        d.verus = False
+        d.kani = True
+    return out
+
+
 def canonical_decls(tier='quick'):
     """numeric declarations with an IDEMPOTENT custom sanitizer (san_* = clamp / abs) and every value-creating derive"""
     out = []
@@ -986,6 +1044,19 @@ def harnesses_for(prop, tier, seed):
             else:
                 hs.append(h_serialize(d, [prop], concrete=('" ab "', 'ab'), bounded=B))
         decls = decls + sdecls
+    elif prop == 'C05':
+        from .kani_serde import serde_items_expanded
+        decls = guard_decls(tier)
+        extra = serde_items_expanded() + parse_stub_items(sorted({d.inner for d in decls}))
+        for d in decls:
+            for e in ('TryFrom', 'FromStr', 'Deserialize', 'Arbitrary'):
+                if e in d.derives:
+                    hs.append(h_valid_via(d, [prop], e))
+        dd = [d for d in default_decls(tier) if not d.note.startswith('invalid-default') and d.has_validation and d.family != 'string']
+        for d in dd:
+            body = sym_setup(d) + '        { let dv: %s = %s; kani::assume(ref_%s::try_new(dv).is_ok()); }\n' % (concrete_inner(d), d.default_ref, d.id) + '        let i = <%s as Default>::default().into_inner();\n        assert!(ref_%s::valid(&i), "Default::default() yields a valid value (or panics)");\n' % (concrete_self(d), d.id)
+            hs.append(Harness(d, 'guards run: Default', [prop], body, clause='default() returns only a value that satisfies every declared validator'))
+        decls = decls + dd
     elif prop == 'C09':
         di = arbitrary_int_decls(tier)
         df = arbitrary_float_decls(tier)
